@@ -255,8 +255,16 @@ fn check_pair(sender: &Node, s: &CopySpec, r: &CopySpec, tally: &mut Tally, viol
     let x = member_x();
     let exp_ops = expected_ops(s, r);
     // truncation points: 0 = nothing offered at all is only possible when exp_ops is empty
-    let ks: Vec<usize> = if exp_ops.is_empty() { vec![0] } else { (1..=exp_ops.len()).collect() };
-    for k in ks {
+    // (ops kept, slack): besides the exact budget for k ops, a budget with 9 spare bytes — room for a
+    // SetMaxVersion op but not for the next key-value — must yield the same k ops
+    let mut ks: Vec<(usize, usize)> = if exp_ops.is_empty() { vec![(0, 0)] } else { (1..=exp_ops.len()).map(|k| (k, 0)).collect() };
+    for k in 1..exp_ops.len() {
+        if codec::op_len(&exp_ops[k]) > 12 {
+            ks.push((k, 9));
+            ks.push((k, 12));
+        }
+    }
+    for (k, slack) in ks {
         tally.inc("cases");
         let Some(mut recv) = install("r", 10_002, r) else {
             tally.inc("receiver_not_installable");
@@ -265,7 +273,7 @@ fn check_pair(sender: &Node, s: &CopySpec, r: &CopySpec, tally: &mut Tally, viol
         let cb0 = recv.callback_count();
         let syn = recv.cc.verif_create_syn_message();
         // budget that lets exactly k ops through (single block: 3 + bytes + 1)
-        let budget = if exp_ops.is_empty() || k == exp_ops.len() { 65_506 } else { (4 + exp_ops[..k].iter().map(codec::op_len).sum::<usize>()).max(100) };
+        let budget = if exp_ops.is_empty() || k == exp_ops.len() { 65_506 } else { (4 + slack + exp_ops[..k].iter().map(codec::op_len).sum::<usize>()).max(100) };
         let reply = match guarded(|| sender.cc.verif_compute_delta(&syn, budget)) {
             Ok(Some(m)) => m,
             Ok(None) => continue,
